@@ -61,8 +61,28 @@ pub struct Case {
 
 const UNDECODABLE: [&str; 5] = ["!!!", "a", "abc def", "ab$d", "====="];
 
+/// credential ids: every odd one extends the id before it (so ids that are prefixes of one another occur in the same
+/// store and allow list)
 fn cred_id(k: usize) -> Vec<u8> {
-    format!("c09-cred-{k:03}-0123456").into_bytes()
+    let base = format!("c09-cred-{:03}-0123456", k - k % 2).into_bytes();
+    if k % 2 == 0 {
+        base
+    } else {
+        [base.as_slice(), b"-and-a-longer-tail"].concat()
+    }
+}
+
+/// stored secrets are usually 32 bytes; imported credentials may hold other lengths (HMAC keys longer than a block are
+/// hashed first, RFC 2104)
+fn secret(tag: &str, k: usize, variant: u8) -> Vec<u8> {
+    let h = sha256(format!("{tag}-{k}").as_bytes()).to_vec();
+    match (variant / 3, k % 2) {
+        (1, 0) => h.repeat(2),                        // 64 bytes: exactly one block
+        (1, _) => [h.repeat(2), vec![0x41]].concat(), // 65 bytes
+        (2, 0) => h.repeat(3),                        // 96 bytes
+        (2, _) => h[..1].to_vec(),
+        _ => h,
+    }
 }
 
 fn held(case: &Case) -> Vec<Passkey> {
@@ -72,8 +92,8 @@ fn held(case: &Case) -> Vec<Passkey> {
         .map(|(k, s)| {
             let hm = match s % 3 {
                 0 => None,
-                1 => Some((sha256(format!("gated-{k}").as_bytes()).to_vec(), None)),
-                _ => Some((sha256(format!("gated-{k}").as_bytes()).to_vec(), Some(sha256(format!("plain-{k}").as_bytes()).to_vec()))),
+                1 => Some((secret("gated", k, *s), None)),
+                _ => Some((secret("gated", k, *s), Some(secret("plain", k, *s)))),
             };
             make_passkey(900 + k as u64, SITES[0].effective, &cred_id(k), Some(b"user-handle"), None, hm)
         })
@@ -487,7 +507,8 @@ fn strategy() -> impl Strategy<Value = Case> {
             prop_oneof![1 => Just(HmacCfg::None), 2 => Just(HmacCfg::UvOnly), 2 => Just(HmacCfg::UvOnlyMc), 2 => Just(HmacCfg::WithoutUv), 3 => Just(HmacCfg::WithoutUvMc)],
             proptest::bool::weighted(0.6),
             any::<u8>(),
-            proptest::collection::vec(prop_oneof![1 => Just(0u8), 2 => Just(1u8), 3 => Just(2u8)], 1..5),
+            // per credential: no secret / gated only / both; one in five with secrets of another length than 32 bytes
+            proptest::collection::vec(prop_oneof![4 => Just(0u8), 8 => Just(1u8), 12 => Just(2u8), 6 => 4u8..9], 1..5),
             proptest::option::weighted(0.75, proptest::collection::vec(any::<u16>(), 0..4)),
             proptest::option::weighted(0.6, prf_in(false, register)),
             proptest::option::weighted(0.45, prf_in(true, register)),
@@ -497,7 +518,7 @@ fn strategy() -> impl Strategy<Value = Case> {
 }
 
 pub fn run(ctx: &mut Ctx) {
-    ctx.rule = "ceremonies (registration / assertion through Client, assertions also at the CTAP2 level) over authenticator configurations {no hmac-secret, UV-only, UV-only+mc, with non-UV secret, with non-UV secret+mc} x verified/unverified user x UV requirement, stores with 1-4 credentials holding no / gated-only / both secrets, PRF inputs of any length (one or two values, eval and evalByCredential with valid, base64, empty, undecodable and unlisted keys, prf / prfAlreadyHashed / both), allow list present or not. Non-trivial = a ceremony whose PRF result was compared with the oracle, or a malformed request; distinct by case.".into();
+    ctx.rule = "ceremonies (registration / assertion through Client, assertions also at the CTAP2 level) over authenticator configurations {no hmac-secret, UV-only, UV-only+mc, with non-UV secret, with non-UV secret+mc} x verified/unverified user x UV requirement, stores with 1-4 credentials (some ids are prefixes of others) holding no / gated-only / both secrets (32 bytes, sometimes 1 / 64 / 65 / 96 bytes), PRF inputs of any length (one or two values, eval and evalByCredential with valid, base64, empty, undecodable and unlisted keys, prf / prfAlreadyHashed / both), allow list present or not. Non-trivial = a ceremony whose PRF result was compared with the oracle, or a malformed request; distinct by case.".into();
     ctx.assumptions = vec![
         "HMAC-SHA-256 is implemented in the harness from SHA-256 (RFC 2104); salts are SHA-256(\"WebAuthn PRF\" || 0x00 || input) or the raw 32 bytes".into(),
         "at registration a verified ceremony may use either secret (the statement demands the gated secret 'always' only for assertions); an unverified one must use the non-gated secret".into(),
